@@ -1,18 +1,375 @@
 package main
 
-import "golang.org/x/tools/go/ssa"
+// Cooperative threads for concurrent harnesses.
+//
+// Each harness thread (sym.Go) runs on its own goroutine but exactly one runs at a time (baton passing).
+// Context switches happen only at synchronisation operations (mutex Lock, atomic Load/Store, sync.Pool
+// Get/Put, thread start/exit, Join); the choice of the thread that runs next is a decision point of the
+// path, so every interleaving at synchronisation granularity (within the pre-emption bound) is explored.
+// A vector-clock happens-before monitor (FastTrack style) flags conflicting accesses that are not ordered
+// by happens-before: for data-race-free programs the sync-granularity exploration is exhaustive, and a
+// racy program exhibits an unordered conflicting pair on some explored schedule.
 
-// threadState is the cooperative thread layer (see threads_impl).
-type threadState struct {
-	inAtomic int
+import (
+	"fmt"
+	"go/token"
+
+	"golang.org/x/tools/go/ssa"
+)
+
+const maxThreads = 4
+
+type vclock [maxThreads]int32
+
+func (a *vclock) join(b *vclock) {
+	for k := range a {
+		if b[k] > a[k] {
+			a[k] = b[k]
+		}
+	}
 }
 
-func (t *threadState) access(i *Interp, addr *value, write bool) {}
-func (t *threadState) lock(i *Interp, p, st, sema *value)        { i.unsupported("threads: lock") }
-func (t *threadState) unlock(i *Interp, p, st, sema *value)      { i.unsupported("threads: unlock") }
-func (t *threadState) syncPoint(i *Interp, what string)          {}
-func (t *threadState) acquire(i *Interp, key any)                {}
-func (t *threadState) release(i *Interp, key any)                {}
+const (
+	tRunnable = iota
+	tBlocked
+	tJoining
+	tDone
+)
+
+type thread struct {
+	id      int
+	resume  chan struct{}
+	status  int
+	waitFor *value
+	vc      vclock
+	depth   int
+}
+
+type cellMeta struct {
+	wTid   int8
+	wClock int32
+	wPos   string
+	reads  vclock
+	rPos   [maxThreads]string
+}
+
+type threadState struct {
+	inAtomic    int
+	threads     []*thread
+	cur         *thread
+	syncVC      map[any]*vclock
+	cells       map[*value]*cellMeta
+	preemptions int
+	maxPreempt  int
+	races       []string
+	abort       any
+	killed      bool
+	ack         chan struct{}
+	seq         int
+	raceOn      bool
+}
+
+func newThreadState(maxPreempt int) *threadState {
+	t := &threadState{syncVC: map[any]*vclock{}, cells: map[*value]*cellMeta{}, maxPreempt: maxPreempt, ack: make(chan struct{}), raceOn: true}
+	main := &thread{id: 0, resume: make(chan struct{})}
+	main.vc[0] = 1
+	t.threads = []*thread{main}
+	t.cur = main
+	return t
+}
+
+// access is called for every heap cell read/write while threads are enabled.
+func (t *threadState) access(i *Interp, addr *value, write bool) {
+	if !t.raceOn || len(t.threads) < 2 {
+		return
+	}
+	c := t.cur
+	m := t.cells[addr]
+	if m == nil {
+		m = &cellMeta{wTid: -1}
+		t.cells[addr] = m
+	}
+	if m.wTid >= 0 && int(m.wTid) != c.id && m.wClock > c.vc[m.wTid] {
+		t.race(i, fmt.Sprintf("write by thread %d at %s", m.wTid, m.wPos), write)
+	}
+	if write {
+		for u := range m.reads {
+			if u != c.id && m.reads[u] > c.vc[u] {
+				t.race(i, fmt.Sprintf("read by thread %d at %s", u, m.rPos[u]), true)
+			}
+		}
+		m.wTid, m.wClock = int8(c.id), c.vc[c.id]
+		m.wPos = i.where()
+		m.reads = vclock{}
+	} else {
+		m.reads[c.id] = c.vc[c.id]
+		m.rPos[c.id] = i.where()
+	}
+}
+
+func (t *threadState) race(i *Interp, other string, write bool) {
+	if len(t.races) >= 4 {
+		return
+	}
+	kind := "read"
+	if write {
+		kind = "write"
+	}
+	t.races = append(t.races, fmt.Sprintf("DATA RACE: %s by thread %d at %s conflicts with %s (not ordered by happens-before)", kind, t.cur.id, i.where(), other))
+}
+
+func (t *threadState) acquire(i *Interp, key any) {
+	if v := t.syncVC[key]; v != nil {
+		t.cur.vc.join(v)
+	}
+}
+
+func (t *threadState) release(i *Interp, key any) {
+	v := t.syncVC[key]
+	if v == nil {
+		v = &vclock{}
+		t.syncVC[key] = v
+	}
+	v.join(&t.cur.vc)
+	t.cur.vc[t.cur.id]++
+}
+
+func (t *threadState) runnable() []*thread {
+	var out []*thread
+	for _, th := range t.threads {
+		if th.status == tRunnable {
+			out = append(out, th)
+		}
+	}
+	return out
+}
+
+// choose is a scheduler decision among n alternatives (all feasible: no solver query).
+func (t *threadState) choose(i *Interp, n int) int {
+	if n <= 1 {
+		return 0
+	}
+	v := i.freshVarNamed(fmt.Sprintf("sched%d", t.seq), fmt.Sprintf("i_sched%d", t.seq), 64)
+	t.seq++
+	for j := 0; j < n-1; j++ {
+		if i.decideKnown(i.ts.Eq(v, i.ts.Const(uint64(j), 64))) {
+			return j
+		}
+	}
+	i.assertPC(i.ts.Eq(v, i.ts.Const(uint64(n-1), 64)))
+	return n - 1
+}
+
+// switchTo hands the baton to next and parks the current goroutine until it is resumed.
+func (t *threadState) switchTo(i *Interp, next *thread) {
+	prev := t.cur
+	if next == prev {
+		return
+	}
+	prev.depth = i.depth
+	t.cur = next
+	i.depth = next.depth
+	next.resume <- struct{}{}
+	<-prev.resume
+	t.afterResume(i, prev)
+}
+
+func (t *threadState) afterResume(i *Interp, me *thread) {
+	if t.killed {
+		panic(pathEnd{kind: "killed"})
+	}
+	if t.abort != nil && me.id == 0 {
+		a := t.abort
+		t.abort = nil
+		panic(a)
+	}
+}
+
+// syncPoint is called before a visible operation: the scheduler may pre-empt the current thread.
+func (t *threadState) syncPoint(i *Interp, what string) {
+	if len(t.threads) < 2 || t.inAtomic > 0 {
+		return
+	}
+	cands := t.runnable()
+	if len(cands) <= 1 {
+		return
+	}
+	if t.preemptions >= t.maxPreempt {
+		return
+	}
+	// order: current thread first, so that choice 0 = "no pre-emption"
+	ordered := []*thread{t.cur}
+	for _, th := range cands {
+		if th != t.cur {
+			ordered = append(ordered, th)
+		}
+	}
+	k := t.choose(i, len(ordered))
+	if k != 0 {
+		t.preemptions++
+		t.switchTo(i, ordered[k])
+	}
+}
+
+// yieldBlocked gives the processor away because the current thread cannot continue.
+func (t *threadState) yieldBlocked(i *Interp, why string) {
+	cands := t.runnable()
+	if len(cands) == 0 {
+		// nobody can run: deadlock (unless everything else is done and main is joining: handled by caller)
+		panic(pathEnd{kind: "deadlock", msg: "all threads blocked: " + why + " at " + i.where()})
+	}
+	k := t.choose(i, len(cands))
+	t.switchTo(i, cands[k])
+}
+
+func (t *threadState) lock(i *Interp, p, st, sema *value) {
+	t.syncPoint(i, "Lock")
+	for (*st).(int64) != 0 {
+		t.cur.status = tBlocked
+		t.cur.waitFor = p
+		t.yieldBlocked(i, "sync.Mutex.Lock")
+	}
+	t.cur.status = tRunnable
+	*st = int64(1)
+	i.undo = append(i.undo, undoEntry{addr: st, old: int64(0)})
+	t.acquire(i, p)
+	i.syncEvent("lock", p)
+}
+
+func (t *threadState) unlock(i *Interp, p, st, sema *value) {
+	t.release(i, p)
+	i.undo = append(i.undo, undoEntry{addr: st, old: *st})
+	*st = int64(0)
+	i.syncEvent("unlock", p)
+	for _, th := range t.threads {
+		if th.status == tBlocked && th.waitFor == p {
+			th.status = tRunnable
+			th.waitFor = nil
+		}
+	}
+}
+
+// spawn starts a new thread for `go fn(args)` / sym.Go.
 func (t *threadState) spawn(i *Interp, fr *frame, instr *ssa.Go, fn value, args []value) {
-	i.unsupported("threads: spawn")
+	if len(t.threads) >= maxThreads {
+		i.unsupported("more than %d threads", maxThreads)
+	}
+	th := &thread{id: len(t.threads), resume: make(chan struct{})}
+	th.vc = t.cur.vc
+	th.vc[th.id] = 1
+	t.cur.vc[t.cur.id]++
+	t.threads = append(t.threads, th)
+	go func() {
+		<-th.resume
+		func() {
+			defer func() {
+				r := recover()
+				if r == nil {
+					return
+				}
+				if t.killed {
+					return
+				}
+				// anything that ends the path is delivered to the main thread
+				if t.abort == nil {
+					t.abort = r
+				}
+			}()
+			if t.killed {
+				return
+			}
+			i.call(nil, token.NoPos, fn, args)
+		}()
+		th.status = tDone
+		// publish this thread's history for Join
+		t.release(i, "join")
+		if t.killed {
+			t.ack <- struct{}{}
+			return
+		}
+		t.afterExit(i, th)
+	}()
+	// the new thread is runnable; whether it runs now is a scheduling decision
+	t.syncPoint(i, "go")
+}
+
+// afterExit picks who runs after a thread finished (or aborted the path).
+func (t *threadState) afterExit(i *Interp, th *thread) {
+	main := t.threads[0]
+	if t.abort != nil {
+		t.cur = main
+		i.depth = main.depth
+		main.resume <- struct{}{}
+		return
+	}
+	cands := t.runnable()
+	if len(cands) == 0 {
+		allDone := true
+		for _, x := range t.threads[1:] {
+			if x.status != tDone {
+				allDone = false
+			}
+		}
+		if main.status == tJoining && allDone {
+			main.status = tRunnable
+			cands = []*thread{main}
+		} else {
+			t.abort = pathEnd{kind: "deadlock", msg: "all remaining threads are blocked after a thread exited"}
+			t.cur = main
+			i.depth = main.depth
+			main.resume <- struct{}{}
+			return
+		}
+	}
+	var next *thread
+	func() {
+		defer func() {
+			if r := recover(); r != nil {
+				t.abort = r
+				next = main
+			}
+		}()
+		next = cands[t.choose(i, len(cands))]
+	}()
+	t.cur = next
+	i.depth = next.depth
+	next.resume <- struct{}{}
+}
+
+// join blocks the main thread until every other thread has finished.
+func (t *threadState) join(i *Interp) {
+	me := t.cur
+	for {
+		allDone := true
+		for _, x := range t.threads {
+			if x != me && x.status != tDone {
+				allDone = false
+			}
+		}
+		if allDone {
+			break
+		}
+		me.status = tJoining
+		cands := t.runnable()
+		if len(cands) == 0 {
+			me.status = tRunnable
+			panic(pathEnd{kind: "deadlock", msg: "Join: the remaining threads are all blocked at " + i.where()})
+		}
+		k := t.choose(i, len(cands))
+		t.switchTo(i, cands[k])
+		me.status = tRunnable
+	}
+	t.acquire(i, "join")
+}
+
+// killAll unwinds every parked thread goroutine (end of path).
+func (t *threadState) killAll() {
+	t.killed = true
+	for _, th := range t.threads[1:] {
+		if th.status != tDone {
+			th.resume <- struct{}{}
+			<-t.ack
+			th.status = tDone
+		}
+	}
 }
